@@ -116,6 +116,35 @@ static inline uint64_t _mm512_mask_cmpeq_epi8_mask(uint64_t k, m512i_t a, m512i_
 #undef M
   return r; }
 
+/* the mask-compare intrinsics are macros over these builtins: predicate 0 EQ, 1 LT, 2 LE, 4 NE, 5 NLT(GE), 6 NLE(GT) */
+#define E__MM_CMPINT_ENUM__MM_CMPINT_EQ 0
+#define E__MM_CMPINT_ENUM__MM_CMPINT_LT 1
+#define E__MM_CMPINT_ENUM__MM_CMPINT_LE 2
+#define E__MM_CMPINT_ENUM__MM_CMPINT_NE 4
+#define E__MM_CMPINT_ENUM__MM_CMPINT_NLT 5
+#define E__MM_CMPINT_ENUM__MM_CMPINT_NLE 6
+#define CMPI_(x, y, p) ((p) == 0 ? (x) == (y) : (p) == 1 ? (x) < (y) : (p) == 2 ? (x) <= (y) : (p) == 4 ? (x) != (y) : (p) == 5 ? (x) >= (y) : (p) == 6 ? (x) > (y) : ((p) == 7))
+static inline uint16_t __builtin_ia32_cmpb128_mask_model(m128i_t a, m128i_t b, int pred, uint16_t k) { unsigned r = 0;
+#define M(i) r |= ((unsigned)(((k >> i) & 1) && CMPI_((int8_t)a.b[i], (int8_t)b.b[i], pred))) << i;
+  L16(M)
+#undef M
+  return (uint16_t)r; }
+static inline uint16_t __builtin_ia32_ucmpb128_mask_model(m128i_t a, m128i_t b, int pred, uint16_t k) { unsigned r = 0;
+#define M(i) r |= ((unsigned)(((k >> i) & 1) && CMPI_(a.b[i], b.b[i], pred))) << i;
+  L16(M)
+#undef M
+  return (uint16_t)r; }
+static inline uint64_t __builtin_ia32_cmpb512_mask_model(m512i_t a, m512i_t b, int pred, uint64_t k) { uint64_t r = 0;
+#define M(i) r |= ((uint64_t)(((k >> i) & 1) && CMPI_((int8_t)a.b[i], (int8_t)b.b[i], pred))) << i;
+  L64(M)
+#undef M
+  return r; }
+static inline uint64_t __builtin_ia32_ucmpb512_mask_model(m512i_t a, m512i_t b, int pred, uint64_t k) { uint64_t r = 0;
+#define M(i) r |= ((uint64_t)(((k >> i) & 1) && CMPI_(a.b[i], b.b[i], pred))) << i;
+  L64(M)
+#undef M
+  return r; }
+
 /* ---- bit builtins: count trailing / leading zeros (undefined for 0, asserted) */
 static inline int __builtin_ctzl_model(unsigned long x) {
   __CPROVER_assert(x != 0, "__builtin_ctzl argument non-zero");
